@@ -1254,11 +1254,11 @@ class ExecGen(Gen):
         saved = (list(self.ints), list(self.insts), list(self.safe), list(self.sets))
         self.safe.append(h)
         body(h)
-        self.ints, self.insts, self.safe, self.sets = saved
+        self.ints, self.insts, self.safe, self.sets = [list(x) for x in saved]
         if self.r.random() < 0.3:
             self.kw('else')
             self.x_assign_int()
-            self.ints = saved[0]
+            self.ints = list(saved[0])
         self.end_tok('if')
         self.end()
 
@@ -1307,8 +1307,9 @@ class ExecGen(Gen):
 
     def x_assign_int(self):
         r = self.r
-        if self.ints and r.random() < 0.6:
-            v = r.choice(self.ints)
+        writable = [v for v in self.ints if not v.startswith('k')]      # loop counters are read-only
+        if writable and r.random() < 0.6:
+            v = r.choice(writable)
         else:
             v = self.name('n')
         if r.random() < 0.2:
